@@ -43,6 +43,42 @@ NEEDS={
  'C15-2':"pedotransfer results rounded to whole Vol.%: needs PTF 1 and a Corg-free heavy silty clay",
  'C18-1':"initial-crop guard of the INITCONCN overrides lost its third conjunct: needs a permanent crop following a different crop",
  'C18-2':"organ index of PRO/DEAD overrides validated against the number of stages: needs more organs than stages",
+'C01-3':"see NOTES.md in the seed directory",
+ 'C01-4':"saturated zone refilled on every day instead of on groundwater change days: needs a constant groundwater table inside the profile",
+ 'C04-3':"see NOTES.md in the seed directory",
+ 'C04-4':"year reload writes next year's first rain days to the fixed slots 365/366: needs a leap year (31 December overwritten)",
+ 'C05-3':"see NOTES.md in the seed directory",
+ 'C05-4':"instability text lists the unstable layers comma separated: needs CSV output and two layers unstable in the same sub-step",
+ 'C10-3':"same-day shift done while reading against the raw previous date: needs the schedule D, D, D+1",
+ 'C10-4':"tillage cursor catches up with overtaken dates: needs a pre-start tillage left in the slot (that second site was repaired by fix 3e8be87, the change no longer manifests on the current tree)",
+ 'C11-3':"error summary kept ordered by in-place insertion through an aliased slice: needs two failed lines whose results arrive out of order",
+ 'C11-4':"day loop without upper bound: needs a fertiliser prediction run whose end date is moved into the past (or an end date before the first harvest)",
+ 'C16-3':"rotation scan stops after the first block of the field: needs a rotation file whose entries of one field are not contiguous",
+ 'C16-4':"see NOTES.md in the seed directory",
+ 'C02-3':"leaching bookkeeping merged into one expression books a dispersive loss at the profile bottom: needs LeachingDepth equal to the number of layers",
+ 'C02-4':"sub-steps capped at 24 without adjusting the sub-step length: needs a day that requires more than 24 sub-steps and an N source on it",
+ 'C03-3':"package-level sync.Map cache of crop type -> crop code: needs two runs of a session with user-defined crop codes met in different order",
+ 'C03-4':"output line buffers recycled through a sync.Pool without clearing: needs CSV output and a column of an unsupported kind (open finding C05-column-kinds) so that a slot stays unfilled",
+ 'C06-3':"overflow cascade skipped on days with net infiltration: needs a layer that starts above field capacity (falling groundwater table)",
+ 'C06-4':"net radiation helper without the RS0 > 0 guard: 0/0 = NaN on a day without sunrise with ET method 3 or 4",
+ 'C07-3':"tillage mixing sums the mineralised-N counters over the mineralisation zone only but divides by the tilled layers: needs a tillage deeper than the mineralisation zone",
+ 'C07-4':"fixation hand-over value only reset for legumes: needs a legume harvested while fixing, followed by a non-legume",
+ 'C08-3':"uptake loop shortened to the uptake depth, stale uptake below a risen groundwater table: needs a table rising into the rooted zone",
+ 'C08-4':"potential ET capped from above only: needs Turc-Wendling below -22 C, Haude with negative deficit or a negative reference ET",
+ 'C09-3':"root limit clamp moved to the soil reader and replaced by the array size in PhytoOut: needs a shallow profile and a crop with WUMAXPF > 11",
+ 'C09-4':"YAML reader resets only the new crop's stages: needs a crop with few stages sown after one that reached stage 5/6",
+ 'C13-3':"shared reset helper called before (classic) / after (YAML) the stage count is read: same trigger as C09-4, shows as classic vs YAML difference",
+ 'C13-4':"multi-year CSV reader replaces a missing mean temperature by the min/max mean instead of leaving it to the neighbour interpolation: needs a 'no value' mean temperature",
+ 'C14-3':"batch-line keys indexed by the raw yaml tag (sync.Once cache): the five ',omitempty' keys are ignored on the line",
+ 'C14-4':"optional entries completed before the batch-line override: needs ResultFileFormat on the line without an extension (or WeatherRootFolder=./x)",
+ 'C15-3':"texture table re-read only when the groundwater enters another depth class, class helper misses the 35 dm limit of silt soils: needs the table route, a moving table and a silt soil",
+ 'C15-4':"pedotransfer functions dispatched through a table with one argument list: PTF4 receives silt instead of sand",
+ 'C18-3':"override's crop file matched by prefix: needs a rotation with PARAM.WR and PARAM.WRA",
+ 'C18-4':"correction factor of N-content function 8 computed when the crop file is read: a TSUM override leaves it stale",
+ 'C19-3':"number of sub-steps from a stability criterion that skips the last interior node: needs a moist dense layer N-2 under dry loose layers",
+ 'C19-4':"stone content folded into the bulk density used for the thermal properties: needs >= 60 % stones in a dense horizon",
+ 'C20-3':"series reader drops a record whose level equals the previous one: needs a plateau followed by a change",
+ 'C20-4':"mean of the polygon file's two levels by integer division: needs an odd sum",
 }
 NOTES={
  'C01-2':"first evaluation inconclusive (anchor text was the edited statement); anchors made prefix-based, then detected by C01.substeps.*",
@@ -70,6 +106,32 @@ NOTES={
  'C13-2':"C13 was not claimed when the seed was made; detected by the soil text/CSV harness",
  'C14-1':"first evaluation inconclusive (package initialiser used reflect.Type, unmodelled); detected after reflect.Type/StructField/StructTag were modelled",
  'C15-1':"first evaluation inconclusive (anchor was the edited statement); detected after fall-back anchors were added",
+'C01-4':"missed at first; detected after the constant-groundwater day harness (C01.gwday.*) was added",
+ 'C04-4':"first inconclusive (the separate reload region reads a new variable); detected by the year-change-day harness once harness files were split per region and a failed region no longer takes the whole check down",
+ 'C05-4':"MISSED: the text value is built with strings.Join over a conditionally appended slice (not modelled); C05's field-count harness binds text columns to separator-free values only",
+ 'C10-3':"detected by the fertiliser file reader harness (C10F, included in C10)",
+ 'C10-4':"no longer a valid seed: its cooperating site was repaired (fix 3e8be87); on the current tree the demo passes with the patch applied",
+ 'C11-3':"INCONCLUSIVE: append of a symbolic-length slice through an alias is not modelled; the new obligations C11.dispatch.failed_run_listed_exactly_once would decide it",
+ 'C11-4':"MISSED: the day loop of Run is not encoded as a loop (only regions of its body); termination is decided for LangTag and the dispatcher only",
+ 'C16-3':"detected by the rotation part of Input on token files (C10I, included in C16)",
+ 'C02-3':"detected by C02 (leaching depth at the profile bottom is one of the nmove instances)",
+ 'C02-4':"not detected by C02 (the kernels are unchanged); detected by C01.substeps.* (sub-step count x length = 1 day)",
+ 'C03-3':"detected by the two-run non-interference mode",
+ 'C03-4':"MISSED: sync.Pool is now modelled (LIFO of depth one, shared across the two runs) but the stale slot only shows for a column kind that the open finding C05-column-kinds carves out",
+ 'C06-4':"missed at first (ET methods 3/4 outside); detected after methods 3/4 were executed with concrete astronomy and a reachable division by zero is confirmed natively as a non-finite observed value",
+ 'C07-3':"missed at first (mineralisation depth was zero in the harness); detected after IZM became a symbolic input",
+ 'C07-4':"missed at first; detected after the hand-over value (SCHNORR) got its own obligation and an arbitrary value of the previous day",
+ 'C09-4':"missed at first; detected after the crop parameter readers were run against an arbitrary state of the previous crop (C09P)",
+ 'C13-3':"missed at first; detected by the same harness (every-field comparison classic vs converter+YAML)",
+ 'C13-4':"missed at first ('no value' excluded from the value domain); detected after a gap scenario was added",
+ 'C14-3':"first inconclusive (sync.Once unmodelled); detected after sync.Once was modelled",
+ 'C15-3':"MISSED: the texture table route (Hydro reads the parameter tables from files) is outside the claim",
+ 'C15-4':"missed at first (route only run for PTF 1-3); detected after the route was compared with a direct call of the selected function, PTF4 included",
+ 'C18-3':"missed at first; detected after the other-crop-file obligation was added",
+ 'C18-4':"first inconclusive (new division), comparison listed fields by hand; detected after the every-field comparison vSameState",
+ 'C19-3':"first inconclusive (regions no longer liftable); detected by the whole-routine instances on corner soils",
+ 'C19-4':"missed at first (stone content zero in the harness); detected after the soil description inputs were made symbolic",
+ 'C20-3':"missed at first (reader not encoded); detected after the reader was executed on token files",
 }
 rows=[]
 for d in sorted(os.listdir(ROOT)):
